@@ -1072,9 +1072,15 @@ func (ce *commandEncoder) end() {
 // commandEncoder.end to release the lock.
 func (ce *commandEncoder) flush() {
 	if err := ce.Encoder.CRLF(); err != nil {
-		// TODO: consider stashing the error in Client to return it in future
-		// calls
-		ce.client.closeWithError(err)
+		// A literal refused by the server (tagged NO or BAD instead of a
+		// continuation request) has already completed the command with that
+		// error: it isn't a connection failure
+		var imapErr *imap.Error
+		if !errors.As(err, &imapErr) {
+			// TODO: consider stashing the error in Client to return it in
+			// future calls
+			ce.client.closeWithError(err)
+		}
 	}
 	ce.Encoder = nil
 }
